@@ -17,6 +17,7 @@
 #else
 #define GVEC_ASSERT(c, msg) ((c) ? (void)0 : verif_assert_fail("std::vector model: " msg))
 #endif
+#define GVEC_AT(v, i) (GVEC_ASSERT((size_t)(i) < (v)->len, "operator[] within size()"), &(v)->data[(i)])
 #define GVEC_PUSH_BACK(v, px) (GVEC_ASSERT((v)->len < (v)->cap, "push_back within modelled capacity"), (v)->data[(v)->len] = *(px), (void)(v)->len++)
 /* std::reverse on element pointers [first, last) of a char vector */
 static inline void gvec_reverse_char(char *first, char *last)
